@@ -20,7 +20,11 @@
 (*                sets, the pair value 0 / 64000, the unlatch in every position, lengths 0 / 1 / 249 / 250 / 255      *)
 (*                (un-randomised for their position)                                                                 *)
 (*        az.bits all bit strings; az.codes 5-bit codes incl. all latches / shifts / B/S; az.flg<n> FLG(n) + digits  *)
+(*        od.*    1-D symbols with CORRECT check characters (OneD.tla) whose data characters are arbitrary symbol     *)
+(*                characters - shift characters at the very end, code-set switches, start/stop characters inside -   *)
+(*                i.e. what a writer never produces but a scanner may see; emitted as run lengths (op "runs")        *)
 EXTENDS Totality, TotalParse, Json
+OD == INSTANCE OneD          \* reference 1-D symbols (check characters, module patterns) of C03 / C10
 CONSTANTS Mode, Depth          \* Depth: 0 quick, 1 thorough
 VARIABLES fam, ver, s, emitted
 vars == <<fam, ver, s, emitted>>
@@ -55,7 +59,21 @@ Families ==
    Fam("az.mixed", "az", <<1,1,1,0,1>>, AZCodeAlphabet, 5, D(3, 4))}            \* M/L first: Mixed table
   \cup {Fam("az.flg", "az", <<0,0,0,0,0, 0,0,0,0,0>> \o BitsOf(k, 3), AZDigitAlphabet, 4, D(3, 4)) : k \in 0..7}
   \cup {Fam("az.punct.flg", "az", <<1,1,1,0,1, 1,1,1,1,0, 0,0,0,0,0>> \o BitsOf(k, 3), AZDigitAlphabet, 4, D(2, 3)) : k \in {0, 1, 2, 6, 7}}
+  \cup {Fam("od.code93", "od", <<>>, {1, 10, 35, 38, 43, 44, 45, 46}, 0, D(3, 4)),
+        Fam("od.code39", "od", <<>>, {1, 10, 35, 38, 39, 40, 41, 42}, 0, D(3, 4)),
+        Fam("od.code39k", "od", <<>>, {1, 10, 35, 38, 39, 40, 41, 42}, 0, D(3, 4)),
+        Fam("od.code128", "od", <<103>>, {0, 17, 33, 64, 95, 96, 97, 98, 99, 100, 101, 102}, 0, D(2, 3)),
+        Fam("od.code128", "od", <<104>>, {0, 17, 33, 64, 95, 96, 97, 98, 99, 100, 101, 102}, 0, D(2, 3)),
+        Fam("od.code128", "od", <<105>>, {0, 17, 33, 64, 95, 96, 97, 98, 99, 100, 101, 102}, 0, D(2, 3)),
+        Fam("od.codabar", "od", <<>>, {0, 1, 10, 15, 16, 17, 19}, 0, D(4, 5))}
 Versions(f) == IF f.kind = "qr" THEN {1, 10, 27} ELSE {0}
+\* run lengths (modules; first run is a bar) of the 1-D symbol with data characters q and correct check characters
+ODRuns(f, q) ==
+  CASE f.name = "od.code93" -> OD!C93Runs(q \o <<OD!CheckC93(q), OD!CheckK93(q)>>)
+    [] f.name = "od.code39" -> OD!C39Runs(q)
+    [] f.name = "od.code39k" -> OD!C39Runs(Append(q, OD!Check39(q)))
+    [] f.name = "od.code128" -> OD!C128Runs(Append(f.prefix \o q, OD!Check128(f.prefix \o q)))
+    [] f.name = "od.codabar" -> OD!CBarRuns(q)
 
 (* ------------------------------------------------------------------ concrete inputs *)
 RECURSIVE DMConcrete(_,_,_)
@@ -73,12 +91,14 @@ Chunks16(bits) == [k \in 1..((Len(bits) + 15) \div 16) |-> PackLE16(bits, (16 * 
 Class(f, v, q) == CASE f.kind = "qr" -> QRParse(Bytes(f, q), v, FALSE)
                     [] f.kind = "dm" -> DMParse(Bytes(f, q))
                     [] f.kind = "az" -> AZParse(AzBits(f, q))
+                    [] f.kind = "od" -> Out("any", f.name)
 Case(f, v, q) ==
   LET r == Class(f, v, q) IN
   CASE f.kind = "qr" -> [op |-> "qrp", api |-> "qr.parser", a |-> <<v, 0>>, b |-> Bytes(f, q), h |-> <<>>, fam |-> f.name, cls |-> r.cls, why |-> r.why]
     [] f.kind = "dm" -> [op |-> "dmp", api |-> "dm.parser", a |-> <<>>, b |-> Bytes(f, q), h |-> <<>>, fam |-> f.name, cls |-> r.cls, why |-> r.why]
     [] f.kind = "az" -> LET bits == AzBits(f, q) IN
                         [op |-> "azp", api |-> "az.hld", a |-> <<Len(bits)>>, b |-> Chunks16(bits), h |-> <<>>, fam |-> f.name, cls |-> r.cls, why |-> r.why]
+    [] f.kind = "od" -> [op |-> "runs", api |-> f.name, a |-> <<10, 2, 12, 0>>, b |-> ODRuns(f, q), h |-> <<>>, fam |-> f.name, cls |-> r.cls, why |-> r.why]
 
 (* ------------------------------------------------------------------ the generation tree *)
 Init == IF Mode = "laws" THEN fam = Fam("none", "none", <<>>, {}, 8, 0) /\ ver = 0 /\ s = <<>> /\ emitted = TRUE
